@@ -768,3 +768,43 @@ def gen_yield_shape(rng):
         body = [("try", [("match", a), y(), ("match", b)], ["nomatch"], [y(), ("match", tail())])]
     p = {"outs": outs, "hooks": [], "finish_codes": [], "yield_codes": ycodes, "body": body}
     return p, pr_prog(p)
+
+
+# ---------------------------------------------------------------------------
+# end-of-input shapes (C17): `end` in match, case and wait positions, after optional/loop, inside try
+# ---------------------------------------------------------------------------
+def gen_eof_shape(rng):
+    lit = lambda: ("lit", bytes(rng.choice(b"abxyz:;=") for _ in range(rng.randint(1, 3))))
+    outs = [{"type": "int", "name": "n0", "default": None}, {"type": "str", "name": "s0", "size": 8, "null": True, "default": None},
+            {"type": "enum", "name": "en", "values": ["EA", "EB", "EC"]}]
+    fcodes = ["F0", "F1"]
+    a, b = lit(), lit()
+    while b[1][0] == a[1][0]:
+        b = lit()
+    act = lambda: rng.choice([("assign", "n0", ("bin", "+", ("var", "n0"), ("num", 1))), ("assign", "en", ("enumv", rng.choice(["EA", "EB", "EC"]))),
+                              ("hook", "hk"), ("appc", "s0", ("num", 33)), ("assigns", "s0", b"ok")])
+    fin = lambda: rng.choice([[], [("finish", rng.choice([None, "F0", "F1"]))]])
+    END = ("end",)
+    k = rng.choice(["lit_end", "optional_end", "loop_case_end", "try_end", "wait_end", "case_else_end", "foreach_end", "end_only", "regex_end", "end_in_case_with_data"])
+    if k == "lit_end":
+        body = [("match", a), ("match", END)] + [act()] * rng.randint(0, 2) + fin()
+    elif k == "optional_end":
+        body = [("match", a), ("optional", [("match", b)]), ("match", END), act()] + fin()
+    elif k == "loop_case_end":
+        body = [("loop", None, [("case", [([END], [act(), ("break", None)]), ([("re", ("any",))], [act()])])])] + fin()
+    elif k == "try_end":
+        body = [("try", [("match", a), act()], ["nomatch"], [("case", [(["else"], [("wait", END), act()]), ([END], [act()])])])]
+    elif k == "wait_end":
+        body = [("match", a), ("wait", END), act()] + fin()
+    elif k == "case_else_end":
+        body = [("case", [([a], [act()]), (["else"], [])]), ("match", END), act()]
+    elif k == "foreach_end":
+        body = [("foreach", [("match", ("re", ("plus", ("cls", "\\d"))))], [("assign", "n0", ("bin", "+", ("bin", "*", ("var", "n0"), ("num", 10)), ("bin", "-", ("last",), ("chr", 48))))]), ("match", END)] + fin()
+    elif k == "end_only":
+        body = [("match", END), act()]
+    elif k == "regex_end":
+        body = [("append", "s0", ("re", ("star", ("set", [(97, 122)], False)))), ("match", END), act()] + fin()
+    else:
+        body = [("case", [([a, END], [act()]), ([b], [act(), ("match", END)])])] + fin()
+    p = {"outs": outs, "hooks": ["hk"], "finish_codes": fcodes, "yield_codes": [], "body": body}
+    return p, pr_prog(p)
